@@ -281,6 +281,10 @@ func (r *Result) finish(verifDir string, start time.Time, seed int, checkerCmd s
 
 // shareRule runs another property's check and adopts the obligations of one of its rules (optionally
 // filtered) under a rule name of this property: the same structural fact is a necessary condition of both.
+// A floor on an adopted rule guards only that the filter still matches something. Rules about *recycled* objects
+// (re-initialisation, release, pooled maps) are adopted with floor 0: a tree that stops pooling a type has nothing to
+// re-initialise or release, the adopting property holds trivially, and a floor firing there would be a false alarm.
+// The source rule keeps its own floor in its own property.
 func shareRule(P *Prog, r *Result, src ruleFunc, srcRule string, keep func(o Obligation) bool, newRule string, floor int) {
 	tmp := NewResult(r.Prop, r.Tier)
 	src(P, tmp)
